@@ -13,7 +13,8 @@ from contracts.ns_units import Branch, build, c_setitem, common as ns_common, ns
 from pyvc.engine import ClassRef, ExcVal, PyRaise, Rec
 from pyvc.units import Setup, Unit
 
-SCEN = ["flat", "nested-members", "dict-branch", "unknown-key", "whole-group-loader", "subcommand", "skip_fn", "parent_key", "given-as-dict", "check-fails", "prev_cfg"]
+SCEN = ["flat", "nested-members", "dict-branch", "unknown-key", "whole-group-loader", "subcommand", "skip_fn", "parent_key", "given-as-dict", "check-fails", "prev_cfg",
+        "method-name-keys", "method-name-keys-below-parent_key"]
 
 
 def aa_setup(ctx):
@@ -61,6 +62,14 @@ def aa_setup(ctx):
         fails = "b"
     elif scen == "prev_cfg":
         acts = {"a": (A("a"), None), "b": (A("b"), None)}
+    elif scen == "method-name-keys":
+        # options named like Namespace's own methods are stored and returned like any other name (C11): they meet their actions like any other key
+        tree = Branch(values=v[0], g=Branch(items=v[1], x=v[2]))
+        acts = {"values": (A("values"), None), "g.items": (A("g.items"), None), "g.x": (A("g.x"), None)}
+    elif scen == "method-name-keys-below-parent_key":
+        tree = Branch(keys=v[0], b=v[1])
+        parent_key = "opt"
+        acts = {"opt.keys": (A("opt.keys"), None), "opt.b": (A("opt.b"), None)}
     cfg = build(tree) if not given_as_dict else {"a": v[0], "b": v[1]}
     cfg0 = cfg
     open_cms = []
@@ -111,6 +120,7 @@ def expected_checks(d):
         "flat": [("a", v[0]), ("b", v[1])], "nested-members": [("g.x", v[0]), ("g.h.y", v[1]), ("b", v[2])], "dict-branch": [("g.x", v[0]), ("b", v[1])],
         "unknown-key": [("a", v[0])], "whole-group-loader": [("g", v[0]), ("b", v[1]), ("g.x", "loaded.x"), ("g.y", "loaded.y")], "subcommand": [("fit.lr", v[1]), ("a", v[2])],
         "skip_fn": [("a", v[0])], "parent_key": [("opt.a", v[0]), ("opt.b", v[1])], "given-as-dict": [("a", v[0]), ("b", v[1])], "prev_cfg": [("a", v[0]), ("b", v[1])],
+        "method-name-keys": [("values", v[0]), ("g.items", v[1]), ("g.x", v[2])], "method-name-keys-below-parent_key": [("opt.keys", v[0]), ("opt.b", v[1])],
     }[scen]
 
 
@@ -138,7 +148,7 @@ def aa_post(ctx, st, result):
         holder = ns_rec({})
         c_setitem(ctx, holder, (d["parent_key"], result), {})
         root = holder
-    ok_vals = is_ns(root) and all(rec_at(root, k.split(".")) is d["checked"][k] for k, _ in want if not (d["scen"] == "whole-group-loader" and k == "g"))
+    ok_vals = is_ns(root) and all(k in d["checked"] and rec_at(root, k.split(".")) is d["checked"][k] for k, _ in want if not (d["scen"] == "whole-group-loader" and k == "g"))
     ctx.oblige("post", "the-checked-value-replaces-the-given-one-under-the-same-key" + tag, ok_vals)
     if d["scen"] == "unknown-key":
         ctx.oblige("post", "keys-without-an-action-keep-their-value" + tag, rec_at(root, ["zz"]) is d["v"][1] and rec_at(root, ["u", "w"]) is d["v"][2])
@@ -149,6 +159,7 @@ def aa_post(ctx, st, result):
     shape = {
         "flat": ["a", "b"], "nested-members": ["g.x", "g.h.y", "b"], "dict-branch": ["g.x", "b"], "unknown-key": ["a", "zz", "u.w"], "whole-group-loader": ["g.x", "g.y", "b"],
         "subcommand": ["subcommand", "fit.lr", "a"], "skip_fn": ["a", "b"], "parent_key": ["opt.a", "opt.b"], "given-as-dict": ["a", "b"], "prev_cfg": ["a", "b"],
+        "method-name-keys": ["values", "g.items", "g.x"], "method-name-keys-below-parent_key": ["opt.keys", "opt.b"],
     }[d["scen"]]
     from contracts.ns_units import m_leaves
     ctx.oblige("frame", "no-key-is-added-or-lost" + tag, is_ns(root) and sorted(k for k, _ in m_leaves(view(root))) == sorted(shape))
